@@ -33,6 +33,13 @@ def _models(tier, seed, n_quick=120, n_thorough=1200, depth=2, width=3, **kw):
     n = n_quick if tier == "quick" else n_thorough
     out = 0
     tries = 0
+    from .gen import special_models
+    for m in special_models():
+        try:
+            if m.errors() == []:
+                yield m, rng
+        except Exception:
+            pass
     while out < n and tries < 20 * n:
         tries += 1
         try:
@@ -69,7 +76,8 @@ def c01_encoding(tier, seed):
     import puan.logic.plog as pg
     stream = []
     for m, rng in _models(tier, seed, depth=3):
-        stream.extend((v, rng) for _, v in variants(m))
+        stream.append((m, rng))          # the model as built (its own classes), then near-identical rebuilt variants
+        stream.extend((v, rng) for n_, v in variants(m) if n_ != "plain")
     rngw = random.Random(seed + 17)
     for _ in range(30 if tier == "quick" else 200):
         a, b = rngw.sample(wide, 2)
@@ -303,7 +311,87 @@ def c05_negation_e2e(tier, seed):
             r["_seen"].add((text, a))
             if b.constant != 1 - a:
                 _viol(r, "c05.not-complement", {"model": text, "env": env}, original=a, negated=str(b))
+    # an explicitly given id is kept: every way of giving it (str / puan.variable), ids that look like generated ones,
+    # through negate(), Not() and a double negation
+    import puan
+    for ident in ("N", "VAR", "VARIANT-7", "VAR_colour", "var1", "VAR" + "0" * 64, "x y", "1"):
+        for how in ("str", "variable"):
+            for shape in (lambda v: pg.Any("a", "b", variable=v), lambda v: pg.All(pg.Any("a", "b", variable="Q"), "c", variable=v),
+                          lambda v: pg.AtLeast(2, ["a", "b", "c"], variable=v), lambda v: pg.AtMost(1, ["a", "b"], variable=v),
+                          lambda v: pg.Imply("a", "b", variable=v), lambda v: pg.Xor("a", "b", variable=v)):
+                mk = lambda: shape(ident if how == "str" else puan.variable(ident))
+                try:
+                    m = mk()
+                except Exception:
+                    continue
+                if m.errors() != []:
+                    continue
+                for route, f in (("negate", lambda x: x.negate()), ("Not", lambda x: pg.Not(x)),
+                                 ("negate.negate", lambda x: x.negate().negate()), ("Not.Not", lambda x: pg.Not(pg.Not(x)))):
+                    got = f(mk())
+                    r["evaluations"] += 1
+                    r["_seen"].add(("id", how, route))
+                    if got.id != ident:
+                        _viol(r, "c05.id-not-kept", {"model": m.to_text(), "id": ident, "given_as": how, "route": route}, got=str(got.id))
     return _finish(r)
+
+
+def c07_assume_compose(tier, seed):
+    """C07 as stated: assume(a).evaluate(r) == evaluate(a | r) for assumptions in every value form"""
+    import puan
+    import pickle
+    r = _result("rt.c07_assume_compose", "random validated models (integer leaves, nested, shared) x assumption dictionaries over a "
+                "random subset of leaf ids and sub-proposition ids (int / (lo,hi) range / puan.Bounds / constant tuple; "
+                "sub-proposition ids with 0, 1 or (0,1)) x total and partial interpretations of the remaining leaves; "
+                "compared on fresh copies; non-trivial = distinct (model, value forms used, result)")
+    for m0, rng in _models(tier, seed + 77, depth=3, n_quick=90, n_thorough=900):
+        blob = pickle.dumps(m0)
+        leaves = leaves_of(m0)
+        text = m0.to_text()
+        comps = [x for x in m0.flatten() if not is_var(x) and x.id != m0.id]
+        for _ in range(6 if tier == "quick" else 16):
+            a, forms = {}, []
+            for v in rng.sample(leaves, rng.randint(0, len(leaves))):
+                lo, hi = v.bounds.as_tuple()
+                form = rng.choice(["int", "range", "bounds", "const-tuple"])
+                if form == "int":
+                    a[v.id] = rng.randint(lo, hi)
+                elif form == "const-tuple":
+                    k = rng.randint(lo, hi)
+                    a[v.id] = (k, k)
+                else:
+                    x, y = sorted((rng.randint(lo, hi), rng.randint(lo, hi)))
+                    a[v.id] = (x, y) if form == "range" else puan.Bounds(x, y)
+                forms.append(form)
+            if comps and rng.random() < 0.4:
+                cnode = rng.choice(comps)
+                a[cnode.id] = rng.choice([0, 1, (0, 1), puan.Bounds(0, 1), (1, 1)])
+                forms.append("sub-proposition")
+            rest = [v for v in leaves if v.id not in a]
+            for total in (True, False):
+                rr = {}
+                for v in rest:
+                    if total or rng.random() < 0.5:
+                        rr[v.id] = rng.randint(*v.bounds.as_tuple())
+                try:
+                    two = pickle.loads(blob).assume(dict(a)).evaluate(dict(rr))
+                    one = pickle.loads(blob).evaluate({**a, **rr})
+                except Exception as e:
+                    _viol(r, "c07.raises", {"model": text, "assumption": _plain(a), "rest": rr}, error=repr(e)[:200])
+                    continue
+                r["evaluations"] += 1
+                r["_seen"].add((text, tuple(sorted(set(forms))), tuple(one.as_tuple())))
+                if tuple(two.as_tuple()) != tuple(one.as_tuple()):
+                    _viol(r, "c07.assume-then-evaluate-differs", {"model": text, "assumption": _plain(a), "rest": rr},
+                          assume_then_evaluate=[int(x) for x in two.as_tuple()], evaluate_union=[int(x) for x in one.as_tuple()])
+    return _finish(r)
+
+
+def _plain(d):
+    out = {}
+    for k, v in d.items():
+        out[str(k)] = [int(x) for x in v.as_tuple()] if hasattr(v, "as_tuple") else (list(v) if isinstance(v, tuple) else v)
+    return out
 
 
 def c04_json_and_rules(tier, seed):
@@ -409,6 +497,34 @@ def c04_json_and_rules(tier, seed):
                     r["_seen"].add((rt_, outer, len(subs), want))
                     if got.constant != want:
                         _viol(r, "c04.cicJE-truth-table", {"rule": data, "env": env}, got=str(got), want=want)
+    # the constructors take any iterable of propositions: lists, tuples, generators, map objects, mixed ids / objects
+    for kind in ("list", "tuple", "generator", "map", "iter"):
+        for items in (["a", "b", "c"], ["a", puan.variable("b"), "c"], [pg.Any("a", "b", variable="Q"), "c", "d"]):
+            for cls, k in (("AtLeast", 2), ("AtMost", 1), ("AtLeast", 1)):
+                def arg():
+                    if kind == "list": return list(items)
+                    if kind == "tuple": return tuple(items)
+                    if kind == "generator": return (x for x in items)
+                    if kind == "map": return map(lambda x: x, items)
+                    return iter(items)
+                try:
+                    mk = (lambda: pg.AtLeast(k, arg(), variable="T")) if cls == "AtLeast" else (lambda: pg.AtMost(k, arg(), variable="T"))
+                    m = mk()
+                except Exception as e:
+                    _viol(r, "c04.constructor-raises-on-iterable", {"class": cls, "argument": kind, "items": [str(x) for x in items]}, error=repr(e))
+                    continue
+                if m.errors() != []:
+                    continue
+                for bits in itertools.product((0, 1), repeat=4):
+                    env = dict(zip("abcd", bits))
+                    vals = [env[x] if isinstance(x, str) else (env[x.id] if is_var(x) else int(env["a"] or env["b"])) for x in items]
+                    want = int(sum(vals) >= k) if cls == "AtLeast" else int(sum(vals) <= k)
+                    got = mk().evaluate(dict(env))
+                    r["evaluations"] += 1
+                    r["_seen"].add((cls, kind, want))
+                    if got.constant != want:
+                        _viol(r, "c04.constructor-truth-table", {"class": cls, "argument": kind, "items": [str(getattr(x, "id", x)) for x in items], "k": k, "env": env},
+                              got=str(got), want=want)
     return _finish(r)
 
 
@@ -546,6 +662,23 @@ def c10_validation(tier, seed):
                      pg.Any(pg.AtLeast(1, ["a", "b", "c"], variable="B"), "w", variable="W"), variable="TOP"),
               pg.All(pg.Any(pg.AtLeast(1, ["a", "b"], variable="B"), "u", variable="U"),
                      pg.Any(pg.AtLeast(1, ["a", "b"], variable="B", sign=-1), "w", variable="W"), variable="TOP")]
+    # generated-id coincidences: unnamed sub-propositions whose library-made ids coincide although their definitions
+    # differ (the generator concatenates child ids, value and sign)
+    def gen_pair(p, q):
+        if p.id != q.id:
+            return None
+        return pg.All(pg.All(p, "p", variable="P"), pg.All(q, "q", variable="Q"), variable="TOP")
+    for mk in (lambda: gen_pair(pg.Any("ab", "c"), pg.Any("a", "bc")),
+               lambda: gen_pair(pg.AtLeast(1, ["x1"]), pg.AtLeast(11, [puan.variable("x", (0, 20))])),
+               lambda: gen_pair(pg.Any("k", "lm"), pg.Any("kl", "m")),
+               lambda: gen_pair(pg.All("ab", "c"), pg.All("a", "bc")),
+               lambda: gen_pair(pg.AtMost(1, ["ab", "c"]), pg.AtMost(1, ["a", "bc"]))):
+        try:
+            m = mk()
+        except Exception:
+            m = None
+        if m is not None:
+            shapes.append(m)
     for m in shapes:
         errs = m.errors()
         r["evaluations"] += 1
